@@ -81,8 +81,68 @@ def case(draw):
     return {"lines": lines, "rows": rows, "cols": cols, "keys": keys, "win": win, "rtl": rtl}
 
 
+@st.composite
+def rtlfill(draw):
+    """a line much wider than the window, drawn right-to-left (td=-2), the window somewhere in its middle: every cell of its row holds
+    one of its characters - in particular the cells at the two window edges"""
+    cols = draw(st.integers(10, 60))
+    L = 3 * cols + draw(st.integers(5, 40))
+    body = "".join(draw(st.lists(st.sampled_from("abcdefghijklmnopqrstuvwxyz0123456789"), min_size=L, max_size=L)))
+    n = draw(st.integers(cols + 2, L - cols - 2))
+    extra = draw(st.lists(st.sampled_from(["l", "h", "2l", "3h", "\x0c"]), max_size=3))
+    return {"kind": "rtlfill", "lines": [body, "x"], "rows": draw(st.integers(3, 12)), "cols": cols, "keys": [":se td=%d\n" % draw(st.sampled_from([-2, -2, 2])),
+            draw(st.sampled_from(["", ":se order=2\n", ":se order=0\n"])), "%d|" % n] + extra, "win": False}
+
+
 def strategy(tier):
     return case()
+
+
+def extra(env, tier, seed):
+    """the right-to-left fill clause, as a generated family of its own (so that its small cases do not crowd out the histories)"""
+    from hypothesis import given, settings, seed as hseed, HealthCheck, Phase
+    n = 200 if tier == "quick" else 4000
+    st_ = {"n": 0, "fail": None}
+
+    @hseed(seed + 4711)
+    @settings(max_examples=n, database=None, deadline=None, suppress_health_check=list(HealthCheck), phases=[Phase.generate, Phase.shrink], print_blob=False,
+              report_multiple_bugs=False)
+    @given(rtlfill())
+    def body(c):
+        o = run_rtlfill(env, c)
+        st_["n"] += 1
+        if not o.ok and not o.inconclusive:
+            st_["fail"] = c
+            raise AssertionError("violation")
+    try:
+        body()
+    except AssertionError:
+        pass
+    return [{"name": "right_to_left_line_fills_the_window", "exhaustive": False, "evaluations": st_["n"], "distinct_nontrivial": st_["n"],
+             "samples": ["td=-2, line of 3 x window width, N| into its middle: no blank cell in the row"],
+             "violations": ([{"case": st_["fail"]}] if st_["fail"] else [])}]
+
+
+def run_rtlfill(env, c):
+    if "t" not in _tabs:
+        _tabs["t"] = layout.Tables(env.paths["src"])
+    t = _tabs["t"]
+    r = run_term(env, c, "")
+    if r.timeout:
+        return Outcome(True, False, ["rtlfill", "timeout"], inconclusive=True)
+    if r.crashed():
+        return Outcome(False, True, ["rtlfill"], detail={"why": "editor crashed", "sig": r.signature()})
+    k = r.out.find(b"\0MARK\0")
+    if k < 0:
+        return Outcome(True, False, ["rtlfill", "marker_not_reached"], inconclusive=True)
+    te = term.Term(c["rows"], c["cols"], lambda cp: 1 if cp < 0x300 else t.wid(cp))
+    te.feed(r.out[:k])
+    row = te.row_text(0)
+    blanks = [i for i, ch in enumerate(row[:c["cols"]]) if ch == " "]
+    if blanks:
+        return Outcome(False, True, ["rtlfill"], detail={"why": "cell(s) %s of the row are blank although the line covers the whole window" % blanks[:4], "row": row, "keys": c["keys"],
+                                                        "cols": c["cols"], "line_length": len(c["lines"][0])})
+    return Outcome(True, True, ["rtlfill"])
 
 
 _tabs = {}
@@ -130,6 +190,8 @@ def render_line(t, s, left, cols):
 
 
 def run_case(env, c):
+    if c.get("kind") == "rtlfill":
+        return run_rtlfill(env, c)
     if "t" not in _tabs:
         _tabs["t"] = layout.Tables(env.paths["src"])
     t = _tabs["t"]
